@@ -196,7 +196,11 @@ def _run(pid, cfg, tier, seed, work, t0, replay):
             args.append("-test.run=" + cfg["run"])
         shards.append(Shard(k, work, binary, args, env, timeout))
     race_shards = []
-    if tier == "thorough" and cfg.get("race"):
+    # race detector: thorough tier for every property that names tests under
+    # "race"; quick tier only for the (small, concurrency-only) tests named
+    # under "race_quick"
+    race_tests = cfg.get("race") if tier == "thorough" else cfg.get("race_quick")
+    if race_tests:
         rbin = os.path.join(work, "race.test")
         rc, out = build(cfg["pkg"], rbin, race=True)
         if rc != 0:
@@ -204,11 +208,11 @@ def _run(pid, cfg, tier, seed, work, t0, replay):
             log("INCONCLUSIVE property=%s: -race build failed" % pid)
             return 2
         renv = dict(env)
-        renv["VERIF_SCALE"] = str(cfg.get("race_scale", 0.1))
+        renv["VERIF_SCALE"] = str(cfg.get("race_scale", 0.1) if tier == "thorough" else cfg.get("race_quick_scale", 0.3))
         renv["VERIF_RACE"] = "1"
-        for k in range(cfg.get("race_shards", 2)):
+        for k in range(cfg.get("race_shards", 2) if tier == "thorough" else 1):
             args = ["-rapid.seed=%d" % seed_for(seed, 100 + k), "-test.timeout=%ds" % (timeout + 30),
-                    "-rapid.shrinktime=10s", "-test.run=" + cfg["race"]]
+                    "-rapid.shrinktime=10s", "-test.run=" + race_tests]
             race_shards.append(Shard(100 + k, work, rbin, args, renv, timeout, "r"))
     fuzz_shards = []
     if tier == "thorough":
@@ -405,6 +409,12 @@ def setup():
             if rc != 0:
                 bad += 1
                 log("setup: build of %s failed:\n%s" % (cfg["pkg"], out))
+            if cfg.get("race_quick"):
+                # warm the build cache for the race-detector binary the quick tier uses
+                rc, out = build(cfg["pkg"], os.path.join(work, "r.test"), race=True)
+                if rc != 0:
+                    bad += 1
+                    log("setup: -race build of %s failed:\n%s" % (cfg["pkg"], out))
     finally:
         shutil.rmtree(work, ignore_errors=True)
     return 1 if bad else 0
